@@ -6,8 +6,7 @@ import itertools
 from common import hexs, lean_driver, rng, unhexs
 
 TARGETS = ["RdVerif.Props.C09"]
-THEOREMS = ["all_forms_elemFirst", "all_forms_massFirst", "canonical_fixed_point", "parse_idempotent",
-            "id_roundtrip", "attrs_agree"]
+THEOREMS = ["RdVerif.C09.all_forms_elemFirst", "RdVerif.C09.all_forms_massFirst", "RdVerif.C09.canonical_fixed_point", "RdVerif.C09.parse_idempotent", "RdVerif.C09.id_roundtrip", "RdVerif.C09.attrs_agree"]
 PARTIAL = {}
 ASSUMPTIONS = [
     "model is exact for ASCII strings; non-ASCII spellings are outside the documented forms",
